@@ -3,6 +3,8 @@
 package caldav
 
 import (
+	"encoding"
+
 	"github.com/emersion/go-webdav/internal"
 	vrt "github.com/emersion/go-webdav/internal/zz_verifrt"
 )
@@ -53,7 +55,36 @@ var verifCalendarDataSchema = []internal.VerifShapeSpec{
 // VerifH_C08_WireSchema: the wire structs of calendar-query,
 // calendar-multiget and the calendar-data request map to exactly the
 // elements, attributes, namespaces and child order of RFC 4791.
+
+// verifFreeAttr: a free-form attribute of a request element. If its Go type
+// decodes its own text, the decoder must accept the values the RFC requires
+// every server to understand; an attribute of plain string type takes
+// everything (encoding/xml stores the text).
+func verifFreeAttr(field interface{}, what string, values []string) {
+	u, ok := field.(encoding.TextUnmarshaler)
+	if !ok {
+		return
+	}
+	for _, v := range values {
+		vrt.Assert(u.UnmarshalText([]byte(v)) == nil, what+" accepts "+v)
+	}
+}
+
+// verifFreeAttrs: RFC 4791 section 7.5 (i;ascii-casemap and i;octet are required of every server); names are any iana-token or x-name.
+func verifFreeAttrs() {
+	var tm textMatch
+	verifFreeAttr(&tm.Collation, "the collation attribute of text-match", []string{"i;ascii-casemap", "i;octet"})
+	names := []string{"EMAIL", "X-ABC-DEF", "fn", "VERSION"}
+	var vcompFilter compFilter
+	verifFreeAttr(&vcompFilter.Name, "the name attribute of compFilter", names)
+	var vpropFilter propFilter
+	verifFreeAttr(&vpropFilter.Name, "the name attribute of propFilter", names)
+	var vparamFilter paramFilter
+	verifFreeAttr(&vparamFilter.Name, "the name attribute of paramFilter", names)
+}
+
 func VerifH_C08_WireSchema() {
+	verifFreeAttrs()
 	internal.VerifCheckShape(vrt.XMLShape(&calendarQuery{}), verifNS, verifQuerySchema, "calendar-query")
 	internal.VerifCheckShape(vrt.XMLShape(&calendarMultiget{}), verifNS, verifMultigetSchema, "calendar-multiget")
 	internal.VerifCheckShape(vrt.XMLShape(&calendarDataReq{}), verifNS, verifCalendarDataSchema, "calendar-data")
